@@ -85,7 +85,7 @@ def cases(tier):
     for d in ([1, 2, 3] if q else [1, 2, 3, 4]):
         for rows in itertools.product([1, 2, 3] if d < 4 else [1, 2], repeat=d):
             for r in rank_vectors(d, [1, 2]):
-                for c in (False, True):
+                for c in ((False, True, 'tail', 'head') if d > 1 else (False, True)):
                     yield {'op': 'diag', 'rows': list(rows), 'r': r, 'c': c}
     # ---- squeeze: every placement of 1x1 modes
     for d in ([1, 2, 3, 4] if q else [1, 2, 3, 4, 5]):
